@@ -149,6 +149,9 @@ def populate_script(cfg, recipe, blobdir, rnd):
         n = recipe.get('frag', 60)
         c += ['write /dev/null frag', 'fallocate frag 0 %d' % (2 * n - 1)] + ['punch frag %d %d' % (2 * i + 1, 2 * i + 1) for i in range(n)]
         c += ['sif frag size %d' % (2 * n * bs)]
+        # files whose in-inode extent root is exactly full (4 extents) / one short of full (3)
+        c += ['write /dev/null frag4', 'fallocate frag4 0 6', 'punch frag4 1 1', 'punch frag4 3 3', 'punch frag4 5 5', 'sif frag4 size %d' % (7 * bs),
+              'write /dev/null frag3', 'fallocate frag3 0 4', 'punch frag3 1 1', 'punch frag3 3 3', 'sif frag3 size %d' % (5 * bs)]
     else:
         c += ['write %s indirect' % _blob(blobdir, 'ind', 300 * bs // (bs // 1024) if bs > 1024 else 300 * 1024, 5)]
     # directories: many entries (indexed later by e2fsck -D when dir_index is on)
